@@ -12,6 +12,10 @@ CHECKS = {
   "reference-model monitor (independent AGL implementation over pinned tables), exhaustive enumeration of the finite spaces",
   "Runs names.FromUnicode/ToUnicode/IsValid from the current tree on every Unicode scalar value, every glyph-list, dingbats and AGLFN entry, every uniXXXX/uXXXX BMP name with malformed relatives, boundary u-forms, and seeded random composites and strings; each result is compared with an independent implementation of the AGL specification over pinned tables. The enumerated parts are complete (exhaustive=true); random parts are exploration.",
   "Trusted: the pinned tables under /verif/refdata and harness/ref/agl.go. Two deliberate upstream re-mappings (Tcommaaccent, tcommaaccent) are carried as known findings keyed by the exact call."),
+ "C02": ("exploration", "DESIGN.md 11/C02",
+  "reference-model monitor: independent PLRM evaluator + state-graph comparison (values and sharing), bounded-exhaustive operand tuples plus model-guided random programs",
+  "Every operand tuple of length 0..max(2,arity) from a 47-object pool (integers at 0, +-1, +-2^31, 2^53, 2^53+1, min/max int; reals; strings, arrays and dictionaries including shared ones and sub-intervals) is applied to each of 44 data operators in a fresh interpreter; the final operand stack, dictionary stack, userdict, FontDirectory, resource categories and (for the empty-tuple cases) systemdict are compared as graphs with sharing against an independent evaluator written from the PLRM, or the error name against the evaluator's set of acceptable names. Seeded random programs (5-80 tokens) and pinned regression programs add multi-step aliasing situations.",
+  "Trusted: harness/ref/pseval.go (independent of the library; returns sets of acceptable outcomes where the PLRM leaves a choice) and the pinned StandardEncoding table. Operand/operator combinations the minimal interpreter documents as unimplemented are counted and not asserted. State after an error is not compared."),
 }
 
 NOT_CLAIMED = {}
